@@ -764,6 +764,9 @@ func (node *Node) checkBlockInventory(ctx context.Context, inv *wire.MsgInv) {
 			continue
 		}
 
+		// The peer has a block we don't have, so we are not in sync when the known blocks are done.
+		node.state.ClearPendingSync()
+
 		headerRequest, err := buildHeaderRequest(ctx, node.state.ProtocolVersion(), node.blocks,
 			node.state, 1, 50)
 		if err != nil {
